@@ -464,6 +464,12 @@ func (c *conn) WriteTo(w io.Writer) (n int64, err error) {
 
 func (c *conn) Flush() error {
 	if err := c.loop.write(c); err != nil {
+		if errors.Is(err, errorx.ErrEngineShutdown) {
+			// The flush failed, the connection was closed and OnClose asked for the shutdown
+			// of the engine, but the caller is an event handler that may well drop this error,
+			// hand the request to the event-loop as a shutdown signal so that it always takes effect.
+			_ = c.loop.poller.Trigger(queue.HighPriority, func(any) error { return err }, nil)
+		}
 		return err
 	}
 	// In LT mode the writable event is only monitored on demand, if there is still
